@@ -604,7 +604,7 @@ fn fuzz_campaign(ctx: &Ctx, target: &str, runs: u64, st: &mut Stats) -> Vec<crat
     let per_job = (runs / 16).max(1);
     let out = std::process::Command::new("cargo")
         .args(["+nightly", "fuzz", "run", "-O", target, &corpus, "--"])
-        .args([format!("-runs={per_job}"), format!("-seed={}", (ctx.seed % 0xffff_fffe) + 1), "-len_control=0".into(), format!("-max_len={}", if target == "open_raw" { 65536 } else { 72 }), "-rss_limit_mb=4096".into(), "-malloc_limit_mb=2048".into(), "-timeout=120".into(), "-jobs=16".into(), "-workers=16".into(), "-print_final_stats=1".into()])
+        .args([format!("-runs={per_job}"), format!("-seed={}", (ctx.seed % 0xffff_fffe) + 1), "-len_control=0".into(), format!("-max_len={}", if target == "open_raw" { 65536 } else { 72 }), "-rss_limit_mb=4096".into(), "-malloc_limit_mb=2048".into(), "-timeout=120".into(), "-jobs=16".into(), "-workers=16".into(), "-print_final_stats=1".into(), format!("-max_total_time={}", std::env::var("VERIF_FUZZ_SECONDS").ok().and_then(|v| v.parse::<u64>().ok()).unwrap_or(1_200))])
         .current_dir(&crate_dir)
         .env("CARGO_NET_OFFLINE", "true")
         .env("RUST_BACKTRACE", "0")
@@ -617,17 +617,25 @@ fn fuzz_campaign(ctx: &Ctx, target: &str, runs: u64, st: &mut Stats) -> Vec<crat
             std::process::exit(2);
         }
     };
-    // libFuzzer's -jobs mode leaves one log per job in the working directory
+    // libFuzzer's -jobs mode leaves one log per job in the working directory:
+    // the number of inputs each job executed is taken from there (a campaign
+    // ends at its run count or at its time limit, whichever comes first; the
+    // time limit only bounds the exploration, it decides nothing)
+    let mut executed: u64 = 0;
     if let Ok(rd) = std::fs::read_dir(&crate_dir) {
         for e in rd.flatten() {
             let n = e.file_name().to_string_lossy().to_string();
             if n.starts_with("fuzz-") && n.ends_with(".log") {
+                if let Ok(text) = std::fs::read_to_string(e.path()) {
+                    executed += text.lines().rev().find_map(|l| l.strip_prefix("stat::number_of_executed_units:").and_then(|v| v.trim().parse::<u64>().ok())).unwrap_or(0);
+                }
                 let _ = std::fs::remove_file(e.path());
             }
         }
     }
-    st.evals(per_job * 16);
-    st.class_n(&format!("libfuzzer:{target}:runs"), per_job * 16);
+    st.evals(executed);
+    st.class_n(&format!("libfuzzer:{target}:runs"), executed);
+    st.notes.push(format!("libFuzzer ({target}): {executed} inputs executed by 16 jobs (limits: {} runs per job, {} s)", per_job, std::env::var("VERIF_FUZZ_SECONDS").ok().and_then(|v| v.parse::<u64>().ok()).unwrap_or(1_200)));
     let mut viols = Vec::new();
     let mut arts: Vec<std::path::PathBuf> = std::fs::read_dir(&artifacts).map(|rd| rd.flatten().map(|e| e.path()).collect()).unwrap_or_default();
     arts.sort();
